@@ -51,24 +51,43 @@ class RefServer:
         if req_b2 is None: b2 = [0, more, sszx] if more else None
         else: b2 = [offset // size, more, sszx]
         return dict(code=code, block1=b1, block2=b2, etag=etag, payload=rep[offset:offset + size])
+    def remote_exp(self): return 7 if self.scf.get("bert", 0) > 0 else 6
+    def _respond(self, k, code, b1, req_b2):
+        """RFC 8323 BERT where asked for (or, on a reliable transport, unasked) and allowed by the policy of this step; else regular blocks"""
+        scf = self.scf; mx = self.remote_exp()
+        want = req_b2[2] if req_b2 is not None else mx
+        if want == 7 and pol(scf["policy2"], k, 6) >= 7:
+            idx = pol(scf["rep_at"], k, 0)
+            etag, rep = (scf["reps"][idx]["etag"], scf["reps"][idx]["data"]) if 0 <= idx < len(scf["reps"]) else (None, b"")
+            n2 = req_b2[0] if req_b2 is not None else 0
+            size = 1024 * max(1, scf.get("bert", 0)); offset = n2 * 1024
+            if offset > len(rep) or (offset == len(rep) and n2 > 0):
+                return dict(code=BAD_REQUEST, block1=None, block2=None, etag=None, payload=b"", maxexp=mx)
+            more = offset + size < len(rep)
+            b2 = ([0, more, 7] if more else None) if req_b2 is None else [n2, more, 7]
+            return dict(code=code, block1=b1, block2=b2, etag=etag, payload=rep[offset:offset + size], maxexp=mx)
+        r = self._slice(k, code, b1, req_b2); r["maxexp"] = mx
+        return r
     def honest(self, rq):
-        k = self.step; self.step += 1; scf = self.scf
+        k = self.step; self.step += 1; scf = self.scf; mx = self.remote_exp()
+        def plain(code): return dict(code=code, block1=None, block2=None, etag=None, payload=b"", maxexp=mx)
         if rq["block1"] is not None:
-            n, m, szx = rq["block1"]; size = 1 << (szx + 4)
+            n, m, szx = rq["block1"]; unit = 1024 if szx == 7 else 1 << (szx + 4); ln = len(rq["payload"])
             asm = b"" if n == 0 else self.asm
-            if n * size != len(asm): return dict(code=INCOMPLETE, block1=None, block2=None, etag=None, payload=b"")
-            if (m and len(rq["payload"]) != size) or (not m and len(rq["payload"]) > size):
-                return dict(code=BAD_REQUEST, block1=None, block2=None, etag=None, payload=b"")
+            if n * unit != len(asm): return plain(INCOMPLETE)
+            if szx == 7: bad = m and (ln == 0 or ln % 1024 != 0)
+            else: bad = (m and ln != unit) or (not m and ln > unit)
+            if bad: return plain(BAD_REQUEST)
             asm = asm + rq["payload"]; aszx = min(szx, pol(scf["policy1"], k, 6))
             if m:
                 self.asm = asm
-                return dict(code=CONTINUE if scf["atomic"] else CHANGED, block1=[n, bool(scf["atomic"]), aszx], block2=None, etag=None, payload=b"")
+                return dict(code=CONTINUE if scf["atomic"] else CHANGED, block1=[n, bool(scf["atomic"]), aszx], block2=None, etag=None, payload=b"", maxexp=mx)
             self.asm = b""; self.bodies.insert(0, asm)
-            return self._slice(k, CHANGED, [n, False, aszx], rq["block2"])
+            return self._respond(k, CHANGED, [n, False, aszx], rq["block2"])
         if rq["block2"] is not None and rq["block2"][0] > 0:
-            return self._slice(k, CONTENT, None, rq["block2"])
+            return self._respond(k, CONTENT, None, rq["block2"])
         self.asm = b""; self.bodies.insert(0, rq["payload"])
-        return self._slice(k, CONTENT, None, rq["block2"])
+        return self._respond(k, CONTENT, None, rq["block2"])
     def serve(self, rq):
         k = self.step
         r = self.honest(rq)
@@ -145,6 +164,7 @@ class ScriptedProtocol:
             if r["block1"] is not None: rm.opt.block1 = tuple(r["block1"])
             if r["block2"] is not None: rm.opt.block2 = tuple(r["block2"])
             if r["etag"] is not None: rm.opt.etag = bytes([r["etag"]])
+            if r.get("observe") is not None: rm.opt.observe = r["observe"]
             rm.mtype = aiocoap.ACK; rm.mid = self.mid; rm.token = b"\x01"
             fut.set_result(Message.decode(rm.encode(), Remote(r.get("maxexp", 6), self.mps)))
         return _SubRequest(fut)
@@ -253,13 +273,13 @@ def gccfg(cc): return "{| c_body := mkbody %d %d; c_mps := %d; c_mbse := %d; c_b
 def gresp(r):
     if r == "fail": return "SFail"
     pl = "bfrom (mkbody %d %d) %d" % (r["plen"], r["pseed"], r.get("poff", 0)) if "plen" in r else fw.gbytes(r["payload"])
-    return "SResp {| rs_code := %d; rs_block1 := %s; rs_block2 := %s; rs_etag := %s; rs_payload := %s; rs_maxexp := %d |}" % (
-        r["code"], gbt(r["block1"]), gbt(r["block2"]), gopt(r["etag"], gz), pl, r.get("maxexp", 6))
+    return "SResp {| rs_code := %d; rs_block1 := %s; rs_block2 := %s; rs_etag := %s; rs_payload := %s; rs_maxexp := %d; rs_observe := %s |}" % (
+        r["code"], gbt(r["block1"]), gbt(r["block2"]), gopt(r["etag"], gz), pl, r.get("maxexp", 6), gbool(bool(r.get("observe"))))
 def gscfg(sc):
     reps = glist(["(%s, mkbody %d %d)" % (gopt(r["etag"], gz), r["len"], r["seed"]) for r in sc["reps"]])
-    return "{| s_policy1 := %s; s_policy2 := %s; s_reps := %s; s_rep_at := %s; s_atomic := %s; s_mis := %s |}" % (
+    return "{| s_policy1 := %s; s_policy2 := %s; s_reps := %s; s_rep_at := %s; s_atomic := %s; s_mis := %s; s_bert := %d |}" % (
         glist(map(gz, sc["policy1"])), glist(map(gz, sc["policy2"])), reps, glist(map(gz, sc["rep_at"])), gbool(sc["atomic"]),
-        "None" if sc.get("mis") is None else "(Some (%d, %d))" % tuple(sc["mis"]))
+        "None" if sc.get("mis") is None else "(Some (%d, %d))" % tuple(sc["mis"]), sc.get("bert", 0))
 
 def copt(x):
     """parsed option -> python"""
@@ -304,11 +324,17 @@ def sequencing_oracle(cc, exchanges, outcome, final, conforming=None):
                 if rq["size1"] is not None: return ("C05:size1-misplaced", "Size1 on an unfragmented request")
                 sent_all = True
             else:
-                n, m, szx = b1; size = 1 << (szx + 4)
-                if szx > 6: return ("C05:block1-szx-range", "request %d uses size exponent %d" % (i, szx))
+                n, m, szx = b1
+                # regular blocks: NUM counts blocks of 2^(szx+4); BERT (RFC 8323, szx 7): NUM counts 1024-byte blocks, a message carries
+                # 1024 * (maximum_payload_size // 1024) bytes
+                unit = 1024 if szx == 7 else 1 << (szx + 4); size = 1024 * (cc["mps"] // 1024) if szx == 7 else unit
+                if szx > 7 or (szx == 7 and size == 0): return ("C05:block1-szx-range", "request %d uses size exponent %d" % (i, szx))
                 if szx > cc["mbse"]: return ("C05:block1-szx-above-client-maximum", "request %d uses size exponent %d, client maximum is %d" % (i, szx, cc["mbse"]))
                 if last_szx is not None and szx > last_szx: return ("C05:block1-szx-grew", "size exponent grew from %d to %d at request %d" % (last_szx, szx, i))
-                if n * size != offset: return ("C05:block1-offset-not-contiguous", "request %d: NUM %d x size %d = %d, but %d bytes were sent so far" % (i, n, size, n * size, offset))
+                if n * unit != offset:
+                    if last_szx == 7 and szx < 7:
+                        return ("C05:block1-offset-after-bert-reduction", "request %d: after the server lowered the size exponent from 7 to %d the client sends NUM %d x %d = %d, but %d bytes were sent so far" % (i, szx, n, unit, n * unit, offset))
+                    return ("C05:block1-offset-not-contiguous", "request %d: NUM %d x size %d = %d, but %d bytes were sent so far" % (i, n, unit, n * unit, offset))
                 pl = rq["payload"]
                 if pl != body[offset:offset + len(pl)]: return ("C05:block1-payload-bytes", "request %d: payload is not body[%d:%d]" % (i, offset, offset + len(pl)))
                 fin = offset + len(pl) >= L
@@ -326,6 +352,11 @@ def sequencing_oracle(cc, exchanges, outcome, final, conforming=None):
                     phase2_at = i            # final response of the Block1 phase (Block1 ignored / error response / plain response)
                 elif b1 is None: justified = ("unsolicited-block1", "Block1 option in the response to a request without one")
                 elif rb1[0] != b1[0]: justified = ("block1-ack-number", "acknowledgement names block %d, block %d was sent" % (rb1[0], b1[0]))
+                elif b1[1] and r.get("observe") and last and is_exn:
+                    # the client means to cancel the erroneous observation and go on (protocol.py:979-986); as the code stands it ends the
+                    # request with AttributeError instead.  Both are acceptable for C05 (loud failure / correct continuation): no verdict here,
+                    # a continued transfer is checked like any other.
+                    return None
                 elif not b1[1]:
                     if rb1[1] or r["code"] == CONTINUE: justified = ("more-after-final-block", "server asks for more (M=%s, code %d) after the final block" % (rb1[1], r["code"]))
                     else: phase2_at = i
@@ -336,6 +367,8 @@ def sequencing_oracle(cc, exchanges, outcome, final, conforming=None):
                 return None
             if phase2_at is not None: break
             if last:
+                if outcome == "exn:BadRequest" and b1 is not None and b1[2] == 7 and r != "fail" and r["block1"] is not None and r["block1"][2] < 7:
+                    return ("C05:block1-offset-after-bert-reduction", "after the server lowered the size exponent from 7 to %d at exchange %d the client computed a block beyond the end of the body (BadRequest)" % (r["block1"][2], i))
                 if is_exn: return ("C05:spurious-error", "%s after a regular acknowledgement at exchange %d" % (outcome, i))
                 return ("C05:transfer-abandoned", "request returned after exchange %d of the Block1 phase with %d of %d bytes sent" % (i, offset, L))
     if phase2_at is None:
@@ -347,13 +380,13 @@ def sequencing_oracle(cc, exchanges, outcome, final, conforming=None):
     fb2 = first["block2"]
     if fb2 is None: expect_more = False
     else:
-        n, m, szx = fb2; size = 1 << (min(szx, 6) + 4)
+        n, m, szx = fb2; size = 1 << (min(szx, 6) + 4)      # 1024 for BERT: a BERT payload is a whole number of 1024-byte blocks
         if n != 0: justified = ("first-block2-number-final" if not m else "first-block2-number", "first response names Block2 number %d (more=%s)" % (n, m))
         elif m and len(first["payload"]) % size != 0: justified = ("first-block2-size", "first block of %d bytes with more-flag at size %d" % (len(first["payload"]), size))
         # (a first block that is a whole multiple of its size, or a single final block longer than its size, is taken as sent: the
         #  offsets the client goes on with are computed from the bytes it really has, so nothing is lost, repeated or mixed)
         expect_more = m
-    got = len(first["payload"]); cur_szx = None if fb2 is None else min(fb2[2], 6)
+    got = len(first["payload"]); cur_szx = None if fb2 is None else fb2[2]
     j = phase2_at
     if justified is None and expect_more:
         while True:
@@ -366,18 +399,21 @@ def sequencing_oracle(cc, exchanges, outcome, final, conforming=None):
             b2 = rq["block2"]
             if b2 is None or rq["block1"] is not None or rq["payload"]:
                 return ("C05:block2-request-malformed", "follow-up request %d: block1=%s block2=%s payload %d bytes" % (j, rq["block1"], b2, len(rq["payload"])))
-            if (b2[0] << (b2[2] + 4)) != got: return ("C05:block2-request-offset", "follow-up request %d asks for NUM %d at size exponent %d, %d bytes assembled" % (j, b2[0], b2[2], got))
+            if b2[0] * (1 << (min(b2[2], 6) + 4)) != got: return ("C05:block2-request-offset", "follow-up request %d asks for NUM %d at size exponent %d, %d bytes assembled" % (j, b2[0], b2[2], got))
             if b2[2] > cc["mbse"]: return ("C05:block2-request-szx-above-client-maximum", "follow-up request %d uses size exponent %d, client maximum is %d" % (j, b2[2], cc["mbse"]))
             if b2[2] > cur_szx: return ("C05:block2-request-szx-grew", "follow-up request %d uses size exponent %d, server's last block had %d" % (j, b2[2], cur_szx))
             if r == "fail": justified = ("transport-failure", "transport failure"); break
             nb2 = r["block2"]
             if nb2 is None: by_design_single = r; break        # accepted as a single response by design (protocol.py:1123)
             n, m, szx = nb2; size = 1 << (min(szx, 6) + 4)
-            if m and len(r["payload"]) != size: justified = ("block2-nonfinal-size", "non-final block of %d bytes at size %d" % (len(r["payload"]), size)); break
-            if not m and len(r["payload"]) > size: justified = ("block2-final-size", "final block of %d bytes exceeds size %d" % (len(r["payload"]), size)); break
+            if szx == 7:
+                if m and len(r["payload"]) % 1024 != 0: justified = ("block2-nonfinal-size", "non-final BERT payload of %d bytes" % len(r["payload"])); break
+            else:
+                if m and len(r["payload"]) != size: justified = ("block2-nonfinal-size", "non-final block of %d bytes at size %d" % (len(r["payload"]), size)); break
+                if not m and len(r["payload"]) > size: justified = ("block2-final-size", "final block of %d bytes exceeds size %d" % (len(r["payload"]), size)); break
             if n * size != got: justified = ("block2-number", "block number %d x %d does not continue at offset %d" % (n, size, got)); break
             if r["etag"] != first["etag"]: justified = ("etag-changed", "ETag changed from %s to %s" % (first["etag"], r["etag"])); break
-            chain.append(r); got += len(r["payload"]); cur_szx = min(szx, 6)
+            chain.append(r); got += len(r["payload"]); cur_szx = szx
             if not m: break
     if justified is not None:
         if not is_exn: return ("C05:accepted:" + justified[0], "%s (exchange %d), but the request returned %r" % (justified[1], j, outcome))
@@ -413,16 +449,17 @@ class C05(fw.Property):
     design_ref = "DESIGN.md section 10"
     technique = ("Coq proofs over block arithmetic translated from source and a hand-written machine model of the client loops composed with an "
                  "RFC 7959 reference server; differential correspondence (real BlockwiseRequest under a virtual loop vs vm_compute of the model)")
-    level_text = ("Theorems (all closed under the global context): _extract_block partitions a body (kernels translated from message.py / optiontypes.py on every run); "
-                  "the client's Block1 requests are a contiguous, never-growing chain against ANY server; client x RFC 7959 reference server terminates for every body, "
-                  "representation, client exponent 0..6 and every server policy (any sequence of exponents, atomic or stateless) with the server holding exactly the body "
-                  "and the caller exactly the representation; Block2 assembly against ANY response list yields only exact in-order concatenations of consistent chains, "
-                  "hence one whole representation when blocks are tagged slices (representation changes included); sequencing violations end at once in the named errors. "
-                  "The hand-written client machine is tied to protocol.py by running both on the same scenarios (reference server, arbitrary scripted responses, lossy network).")
+    level_text = ("Theorems (all closed under the global context): _extract_block partitions a body (kernels translated from message.py / optiontypes.py on every run), for exponents 0..6 and for BERT; "
+                  "the client's Block1 requests are a contiguous, never-growing chain against ANY server (BERT: any server that keeps exponent 7); client x RFC 7959 reference server terminates for every body, "
+                  "representation, client exponent 0..6 and every server policy with the server holding exactly the body and the caller exactly the representation (BERT: reference server that keeps exponent 7); "
+                  "the same over a network that duplicates requests and responses arbitrarily, behind the deduplicating message layer (simulation theorem for any server); Block2 assembly against ANY response list "
+                  "yields only exact in-order concatenations of consistent chains, hence one whole representation when blocks are tagged slices; sequencing violations end at once in the named errors. "
+                  "The hand-written client machine is tied to protocol.py by running both on the same scenarios (reference server, arbitrary scripted responses, lossy network, BERT remotes).")
     level_note = ("Trusted: Coq kernel + vm_compute; translator py2v.py + the C05 job's ast rewrite (validated by the kernels stream); correspondence of Model/C05.v with "
-                  "BlockwiseRequest (sampled scenarios); the reference server as a reading of RFC 7959. Not covered: size exponent 7 / BERT (tier B), observation + block-wise, the "
-                  "deprecated application-set Block1 option, a response dropping the Block2 option mid-transfer (accepted by design). The defect found by this check (first response with "
-                  "Block2 NUM>0, M=0 accepted as the whole body) is fixed in /repo (69c1201); model, theorem C05_first_block2_number_checked and a corpus case follow the fixed code.")
+                  "BlockwiseRequest (sampled scenarios); the reference server as a reading of RFC 7959 / RFC 8323; deduplication (C04) and response matching (C02/C10) as the contract of the retry theorem. "
+                  "Not covered: observation + block-wise, the deprecated application-set Block1 option, a response dropping the Block2 option mid-transfer (accepted by design). "
+                  "Open known finding (tier B): the Block1 cursor is doubled once too often when a BERT acknowledgement lowers the exponent from 7 (C05_bert_reduction_refuted; theorems 12/13 are stated for servers keeping 7). "
+                  "Observation: Observe on an early Block1 acknowledgement ends the request with AttributeError (C05_early_observe_ends_request). The earlier finding (first response Block2 NUM>0, M=0) is fixed (69c1201).")
     rule = ("streams: kernels = _extract_block for all block numbers of boundary-length bodies + BlockwiseTuple methods on boundary tuples vs Gen/block_kernels.v; "
             "transfer = real BlockwiseRequest x Python RFC 7959 reference server vs Coq client model x Coq reference server (body / representation lengths from the boundary "
             "table 0,1,15..17,...,1023..1025,1124/1125,2047..2049,4096 and random; client exponent 0..6; maximum_payload_size variants; application Block2 hint; server "
@@ -430,7 +467,8 @@ class C05(fw.Property):
             "45% with one of 17 misbehaviours at a random step); scripted = arbitrary response scripts (honest exchange predicted from RFC arithmetic, then 0-3 random field "
             "damages, truncation, transport failures, per-response remote exponent) vs Model/C05.run_script; stack = the transfer through the real "
             "Context/TokenManager/MessageManager with per-datagram loss/duplication in both directions (<= 3 losses in a row) or one exchange lost completely, compared with the "
-            "loss-free model run. Non-trivial = at least 2 sub-requests (3 blocks for kernels); distinct by full input.")
+            "loss-free model run; about 12% of all cases use a TCP-like remote (maximum_block_size_exp 7, maximum_payload_size 1124/1152/2048/3000/8192) against the BERT-capable reference "
+            "server (1-8 blocks per message, policies keeping or lowering exponent 7). Non-trivial = at least 2 sub-requests (3 blocks for kernels); distinct by full input.")
     trusted_base = ["translator translate/py2v.py + translate/jobs/c05.py (ast rewrite of namedtuple methods; validated by the kernels stream on every run)",
                     "hand-written Model/C05.v client machine (validated by the transfer, scripted and stack streams)",
                     "Model/C05Server.v / RefServer: the reference server as a reading of RFC 7959 (two independent implementations compared on every run)",
@@ -448,6 +486,11 @@ class C05(fw.Property):
         while (L >> (mbse + 4)) > cap: mbse += 1
         mps = 1124 if rng.random() < 0.75 else rng.choice([1024, 1152, 2048, 1000, 1100, 64])
         b2 = None if rng.random() < 0.7 else [0, False, rng.randint(0, 6)]
+        if rng.random() < 0.12:
+            # a remote on a reliable transport (RFC 8323): BERT, messages of 1024 * (maximum_payload_size // 1024) bytes
+            mbse = 7; mps = rng.choice([1152, 1152, 2048, 2048, 3000, 8192, 1124])
+            L = rng.choice([0, 1, 1023, 1024, 1025, 1152, 1153, 2047, 2048, 2049, 3071, 3072, 3073, 4096, 4097, 5000, 6144, 6145]) if rng.random() < 0.8 else rng.randint(0, 6200)
+            if b2 is not None and rng.random() < 0.5: b2 = [0, False, 7]
         return dict(len=L, seed=rng.randint(0, 250), mps=mps, mbse=mbse, block2=b2)
     def _policy(self, rng):
         m = rng.random()
@@ -469,13 +512,25 @@ class C05(fw.Property):
             reps.append(dict(etag=(10 + i) if tagged else None, len=R, seed=rng.randint(0, 250)))
         est = max(1, (cc["len"] >> (cc["mbse"] + 4)) + 1)
         rep_at = [] if nrep == 1 else sorted(rng.randint(0, nrep - 1) for _ in range(rng.randint(1, est + 4)))
-        sc = dict(policy1=self._policy(rng), policy2=self._policy(rng), reps=reps, rep_at=rep_at, atomic=rng.random() < 0.85, mis=None)
+        sc = dict(policy1=self._policy(rng), policy2=self._policy(rng), reps=reps, rep_at=rep_at, atomic=rng.random() < 0.85, mis=None, bert=0)
+        if cc["mbse"] == 7:
+            sc["bert"] = rng.choice([1, 2, 2, 4, 8])
+            def bertpol():
+                m = rng.random()
+                if m < 0.45: return [7]
+                if m < 0.6: return [7] * rng.randint(1, 3) + [rng.choice([6, 6, 5, 3, 0])]
+                if m < 0.7: return [rng.randint(0, 6)]
+                return [rng.choice([7, 7, 7, 6, 5, 2]) for _ in range(rng.randint(2, 5))]
+            sc["policy1"] = bertpol(); sc["policy2"] = bertpol()
+            for r in reps:
+                if rng.random() < 0.6: r["len"] = rng.choice([0, 1023, 1024, 1025, 2048, 2049, 3000, 4096, 4097, 5000])
         if rng.random() < 0.45:
             # index of the exchange that carries the final Block1 block (0 when the body is not fragmented), from the RFC arithmetic
             L = cc["len"]; szx = cc["mbse"]; kf = 0; off = 0
+            bsz = lambda x: max(1024, 1024 * (cc["mps"] // 1024)) if x == 7 else 1 << (x + 4)
             if L > (cc["mps"] if szx >= 6 else 1 << (szx + 4)):
-                while off + (1 << (szx + 4)) < L:
-                    off += 1 << (szx + 4); szx = min(szx, pol(sc["policy1"], kf, 6)); kf += 1
+                while off + bsz(szx) < L:
+                    off += bsz(szx); szx = min(szx, pol(sc["policy1"], kf, 6)); kf += 1
             x = rng.random()
             if x < 0.3: k = kf                                   # the acknowledgement of the final block / the first Block2 block
             elif x < 0.45: k = kf + 1                            # the second Block2 block
@@ -513,7 +568,7 @@ class C05(fw.Property):
         for _ in range(nd):
             k = rng.randrange(len(script)); r = script[k]
             if r == "fail": continue
-            f = rng.randint(0, 11)
+            f = rng.randint(0, 12)
             if f == 0 and r["block1"]: r["block1"][0] = max(0, r["block1"][0] + rng.choice([-1, 1, 2]))
             elif f == 1 and r["block1"]: r["block1"][1] = not r["block1"][1]
             elif f == 2 and r["block1"]: r["block1"][2] = rng.randint(0, 6)
@@ -526,6 +581,7 @@ class C05(fw.Property):
             elif f == 9: r["block1"] = None if r["block1"] else [rng.randint(0, 3), rng.random() < 0.5, rng.randint(0, 6)]
             elif f == 10: r["block2"] = None if r["block2"] else [rng.randint(0, 2), rng.random() < 0.5, rng.randint(0, 6)]
             elif f == 11: script[k] = "fail"
+            elif f == 12: r["observe"] = rng.choice([0, 5, 5, 70000])          # Observe option on a response (early Block1 phase: protocol.py:979-986)
         if rng.random() < 0.1 and len(script) > 1: script = script[:rng.randrange(1, len(script))]
         if rng.random() < 0.1: script.append(dict(script[-1]) if script[-1] != "fail" else "fail")
         return script
